@@ -324,6 +324,70 @@ def umap (three : Bool) : List Sx → Sx
       | some d => tag "some" [mdiffSx d, tag "asserts" [ofBool r.2], tag "applied" [pairsSx (UMap.apply b d)]]
     | _, _, _ => tag "bad-req" []
   | _ => tag "bad-req" []
+
+/-! wire formats of the unordered diffs: `(uenc fmt diff)`, `(udec fmt (bytes))`, `(menc ..)`, `(mdec ..)`;
+diffs are written `(Replace (x ..))` / `(Modify ((InsertMany x n) ..))` exactly as `udiffSx` / `mdiffSx` print them -/
+
+def uchangeOf : Sx → Option (UArr.Change Nat)
+  | .list [.atom "InsertMany", x, n] => do some (.insertMany (← nat? x) (← nat? n))
+  | .list [.atom "RemoveMany", x, n] => do some (.removeMany (← nat? x) (← nat? n))
+  | .list [.atom "InsertFew", x, n] => do some (.insertFew (← nat? x) (← nat? n))
+  | .list [.atom "RemoveFew", x, n] => do some (.removeFew (← nat? x) (← nat? n))
+  | .list [.atom "InsertSingle", x] => do some (.insertSingle (← nat? x))
+  | .list [.atom "RemoveSingle", x] => do some (.removeSingle (← nat? x))
+  | _ => none
+
+def udiffOf : Sx → Option (UArr.Diff Nat)
+  | .list [.atom "Replace", l] => (nats? l).map .replace
+  | .list [.atom "Modify", .list es] => (es.mapM uchangeOf).map .modify
+  | _ => none
+
+def mchangeOf : Sx → Option (UMap.Change Nat Nat)
+  | .list [.atom "InsertMany", k, v, n] => do some (.insertMany (← nat? k) (← nat? v) (← nat? n))
+  | .list [.atom "RemoveMany", k, n] => do some (.removeMany (← nat? k) (← nat? n))
+  | .list [.atom "InsertSingle", k, v] => do some (.insertSingle (← nat? k) (← nat? v))
+  | .list [.atom "RemoveSingle", k] => do some (.removeSingle (← nat? k))
+  | _ => none
+
+def mdiffOf : Sx → Option (UMap.Diff Nat Nat)
+  | .list [.atom "Replace", l] => (pairsOf l).map .replace
+  | .list [.atom "Modify", .list es] => (es.mapM mchangeOf).map .modify
+  | _ => none
+
+def fmtOf : Sx → Option Codec.Fmt
+  | .atom "nano" => some .nano
+  | .atom "bincode" => some .bincode
+  | _ => none
+
+def wireEnc (isMap : Bool) : List Sx → Sx
+  | [f, d] =>
+    match fmtOf f with
+    | none => tag "bad-req" []
+    | some f =>
+      if isMap then
+        match mdiffOf d with
+        | some d => tag "ok" [tag "owned" [ofNats (Codec.encMDiff f d)], tag "ref" [ofNats (Codec.encMDiffRef f d)]]
+        | none => tag "bad-req" []
+      else
+        match udiffOf d with
+        | some d => tag "ok" [tag "owned" [ofNats (Codec.encUDiff f d)], tag "ref" [ofNats (Codec.encUDiffRef f d)]]
+        | none => tag "bad-req" []
+  | _ => tag "bad-req" []
+
+def wireDec (isMap : Bool) : List Sx → Sx
+  | [f, bs] =>
+    match fmtOf f, nats? bs with
+    | some f, some bs =>
+      if isMap then
+        match Codec.decMDiff f bs with
+        | some (d, []) => tag "ok" [mdiffSx d, tag "reenc" [ofNats (Codec.encMDiff f d)]]
+        | _ => tag "reject" []
+      else
+        match Codec.decUDiff f bs with
+        | some (d, []) => tag "ok" [udiffSx d, tag "reenc" [ofNats (Codec.encUDiff f d)]]
+        | _ => tag "reject" []
+    | _, _ => tag "bad-req" []
+  | _ => tag "bad-req" []
 end DUn
 
 def dispatch (legacy : Bool) (x : Sx) : Sx :=
@@ -342,6 +406,10 @@ def dispatch (legacy : Bool) (x : Sx) : Sx :=
   | .list (.atom "umap-cmp" :: rest) => DUn.umap false rest
   | .list (.atom "umap-apply3" :: rest) => DUn.umap true rest
   | .list (.atom "apply-bytes" :: rest) => DOrd.handleApplyBytes rest
+  | .list (.atom "uenc" :: rest) => DUn.wireEnc false rest
+  | .list (.atom "menc" :: rest) => DUn.wireEnc true rest
+  | .list (.atom "udec" :: rest) => DUn.wireDec false rest
+  | .list (.atom "mdec" :: rest) => DUn.wireDec true rest
   | _ => tag "bad-req" []
 
 partial def loop (legacy : Bool) (h : IO.FS.Stream) (out : IO.FS.Stream) : IO Unit := do
